@@ -303,15 +303,15 @@ pub fn isolated(args: &[String], sub: &str) {
     let batch = arg_num(args, "--batch", 2000) as usize;
     let stack_kib = arg_num(args, "--stack-kib", 2048);
     let timeout = arg_num(args, "--timeout", 300);
-    let mut cases = vec![];
-    read_lines(|v| cases.push(v));
     let stdout = std::io::stdout();
     let mut w = std::io::BufWriter::with_capacity(1 << 20, stdout.lock());
-    for chunk in cases.chunks(batch) {
+    // the cases are streamed: one batch in memory at a time (thorough runs feed gigabytes of cases)
+    let mut pending: Vec<Value> = Vec::with_capacity(batch);
+    let mut run_chunk = |chunk: &[Value], w: &mut std::io::BufWriter<std::io::StdoutLock>| {
         let (buf, status, to) = spawn_child(chunk, false, timeout, stack_kib, sub);
         if status == Some(0) && !to {
             w.write_all(&buf).unwrap();
-            continue;
+            return;
         }
         // the child died or hung: re-run carefully, attributing the failure
         let mut rest: &[Value] = chunk;
@@ -351,6 +351,16 @@ pub fn isolated(args: &[String], sub: &str) {
                 "entry": culprit["entry"], "text": culprit["text"], "cps": culprit["cps"], "tok": culprit["tok"], "rec": culprit["rec"]})).unwrap();
             rest = &rest[(done_ids + 1).min(rest.len())..];
         }
+    };
+    read_lines(|v| {
+        pending.push(v);
+        if pending.len() >= batch {
+            run_chunk(&pending, &mut w);
+            pending.clear();
+        }
+    });
+    if !pending.is_empty() {
+        run_chunk(&pending, &mut w);
     }
     w.flush().unwrap();
 }
